@@ -12,7 +12,9 @@ public / private-unprotected / private-locked / private-unlocked, with _require_
     order primary, subkeys is used, the output names it and verifies / decrypts under exactly that component; no capable
     component -> refusal (enforcement on); private operations refuse on public and locked keys, encryption refuses on private
     keys, a key without identity refuses all but certification, decryption finds the addressed subkey; re-binding a subkey
-    changes what is selected.
+    changes what is selected; a certification revocation / attestation by the key - newer than the self-certification, with or
+    without a KeyFlags subpacket of its own - changes nothing (repair 812bc0f); key flags that sit only in the unhashed area of the
+    self-certification grant nothing and crash nothing (repair df70557).
 The source text of the policy code and the @KeyAction lines are pinned."""
 import hashlib, inspect, logging, warnings
 from datetime import datetime, timezone, timedelta
@@ -29,7 +31,8 @@ PINNED = {
     'PGPKey.is_public': 'ec42575bc2494da7',
     'PGPKey.is_protected': '487fd21efa346bd6',
     'PGPKey.is_unlocked': 'ab5c0e24e60a8fc7',
-    'PGPUID.selfsig': '111019c3241e9c1e',
+    'PGPUID.selfsig': 'f5b0a4b25ee24849',
+    'PGPSignature.key_flags': '3812ad70d8c2de69',
 }
 DECORATORS = {
     'sign': '@KeyAction(KeyFlags.Sign, is_unlocked=True, is_public=False)',
@@ -58,7 +61,7 @@ def digest(f):
 
 def check_pins(ctx, pgpy):
     from pgpy import decorators
-    ns = {'KeyAction': decorators.KeyAction, 'PGPKey': pgpy.PGPKey, 'PGPUID': pgpy.PGPUID}
+    ns = {'KeyAction': decorators.KeyAction, 'PGPKey': pgpy.PGPKey, 'PGPUID': pgpy.PGPUID, 'PGPSignature': pgpy.PGPSignature}
     for name, want in PINNED.items():
         c, m = name.split('.')
         got = digest(inspect.getattr_static(ns[c], m))
@@ -174,6 +177,29 @@ class World:
             self.sigcache[key] = bytes(s)
         return self.sigcache[key]
 
+    def othersig(self, j, mask, t, kind):
+        """kind 'rev': a certification revocation (0x30) by the key on user id j; 'att': an attestation (0x16); both may carry a (hashed)
+        KeyFlags subpacket of their own (mask != NOFLAGS) - PGPUID.selfsig must not read them.  'uflags': a Positive_Cert whose KeyFlags
+        subpacket sits in the UNHASHED area only (not covered by the signature: it grants nothing)"""
+        key = (kind, j, mask, t)
+        if key not in self.sigcache:
+            ST = self.SignatureType
+            with warnings.catch_warnings():
+                warnings.simplefilter('ignore')
+                if kind == 'uflags':
+                    s = self.master.certify(self.muids[j], ST.Positive_Cert, usage=None, hashes=[self.H.SHA256], created=T(t))
+                    if mask != NOFLAGS:
+                        s._signature.subpackets.addnew('KeyFlags', hashed=False, flags=self.fset(mask))
+                        s._signature.update_hlen()
+                elif kind == 'rev':
+                    s = self.master.certify(self.muids[j], ST.CertRevocation, usage=self.fset(mask), hash=self.H.SHA256, created=T(t))
+                elif kind == 'att':
+                    s = self.master.certify(self.muids[j], ST.Attestation, usage=self.fset(mask), attested_certifications=[], hash=self.H.SHA256, created=T(t))
+                else:
+                    raise ValueError(kind)
+            self.sigcache[key] = bytes(s)
+        return self.sigcache[key]
+
     def bindsig(self, i, mask, t):
         key = ('b', i, mask, t)
         if key not in self.sigcache:
@@ -184,14 +210,15 @@ class World:
         return self.sigcache[key]
 
     def assemble(self, form, uids, subs, shuffle=None):
-        """uids: [[j, [[mask, t], ...]], ...]; subs: [[[mask, t], ...], ...] (subkey i+1 of the pool).  A real PGPKey."""
+        """uids: [[j, [[mask, t] or [mask, t, kind], ...]], ...] (kind: see othersig; absent = a Positive_Cert with hashed key flags);
+        subs: [[[mask, t], ...], ...] (subkey i+1 of the pool).  A real PGPKey."""
         blob = bytearray(self.pkt[form][0])
         for j, sigs in uids:
             blob += self.uidpkt[j]
             sigs = list(sigs)
             if shuffle is not None: shuffle.shuffle(sigs)
-            for mask, t in sigs:
-                blob += self.selfsig(j, mask, t)
+            for sg in sigs:
+                blob += self.selfsig(j, sg[0], sg[1]) if len(sg) == 2 else self.othersig(j, sg[0], sg[1], sg[2])
         for i, sigs in enumerate(subs):
             blob += self.pkt[form][i + 1]
             sigs = list(sigs)
@@ -210,8 +237,13 @@ def describe(w, k, form, enforce, tok):
     """the model's input, read off the real key object"""
     ST = w.SignatureType
 
+    CERTS = (ST.Generic_Cert, ST.Persona_Cert, ST.Casual_Cert, ST.Positive_Cert)
+
     def sig_s(s, qual):
-        return '%x/%x/%d' % (int(s.created.timestamp()), World.mask(s.key_flags), int(qual))
+        # s_flags of the model: the flags of the KeyFlags subpacket in the HASHED area (read from the subpacket itself, not through
+        # PGPSignature.key_flags, which is part of what the correspondence checks)
+        sp = next(iter(s._signature.subpackets['h_KeyFlags']), None)
+        return '%x/%x/%d/%d' % (int(s.created.timestamp()), 0 if sp is None else World.mask(sp.flags), int(qual), int(s.type in CERTS))
     kid = str(k.fingerprint)[-16:]
     uids = []
     for u in k._uids:
@@ -395,9 +427,13 @@ class Runner:
 
 
 def recent(sigs):
-    """most recent flag mask of a list [[mask, t], ...] with distinct t"""
-    m = max(sigs, key=lambda s: s[1])[0]
-    return 0 if m == NOFLAGS else m
+    """the flag mask in force for a list [[mask, t] or [mask, t, kind], ...] with distinct t: that of the most recent CERTIFICATION
+    (entries of kind 'rev' / 'att' are not certifications; kind 'uflags' is a certification whose flags are not signed: none)"""
+    certs = [s for s in sigs if len(s) == 2 or s[2] == 'uflags']
+    if not certs:
+        return 0
+    s = max(certs, key=lambda s: s[1])
+    return 0 if (s[0] == NOFLAGS or len(s) == 3) else s[0]
 
 
 def sweep_vectors(ctx, run, family, max_subs, forms, ops, suite, verify_every=1):
@@ -465,6 +501,15 @@ def sweep_history(ctx, run, family, suite, count):
     for n in range(count):
         nsub = rng.randrange(0, 4)
         uids = [[0, [[rng.choice(family), t] for t in rng.sample(range(0, 9), rng.randrange(1, 4))]]]
+        r = rng.random()
+        if r < 0.45:
+            # the identity is revoked / attested after its newest certification (sometimes with a KeyFlags subpacket of its own)
+            uids[0][1].append([rng.choice((NOFLAGS, NOFLAGS, SIGN, ENCC | ENCS)), rng.choice((9, 10, 11)), 'rev' if r < 0.25 else 'att'])
+            if r < 0.08:
+                uids[0][1].append([NOFLAGS, 12, 'att'])
+        elif r < 0.60:
+            # the newest certification has its key flags in the unhashed area only
+            uids[0][1].append([rng.choice((SIGN, ENCC | ENCS, SIGN | ENCC)), 9, 'uflags'])
         subs = [[[rng.choice(family), t] for t in rng.sample(range(0, 9), rng.randrange(1, 4))] for _ in range(nsub)]
         flags = [CERTIFY | recent(uids[0][1])] + [recent(s) for s in subs]
         form = rng.choice(('private', 'private', 'public', 'unlocked'))
@@ -479,6 +524,43 @@ def sweep_history(ctx, run, family, suite, count):
                     run.one(suite, k, form, enforce, op, None, case, flags=flags, verify=(n % 3 == 0))
         run.with_form(form, k, body)
     run.bt.flush()
+
+
+def sweep_revoked(ctx, run, family, suite):
+    """exhaustive: self-certification with flag set pf at day 0, then a certification revocation / an attestation by the key at day 5
+    (without KeyFlags, with Sign, with the encryption flags), or a newer certification whose key flags are unhashed; 0..1 subkeys"""
+    w = run.w
+    n = 0
+    for pf in family:
+        for kind in ('rev', 'att', 'uflags'):
+            for om in (NOFLAGS, SIGN, ENCC | ENCS):
+                for sv in ([], [SIGN], [ENCC | ENCS]):
+                    uids = [[0, [[pf, 0], [om, 5, kind]]]]
+                    subs = [[[f, 0]] for f in sv]
+                    flags = [CERTIFY | recent(uids[0][1])] + list(sv)
+                    for form in ('private', 'public'):
+                        k = w.assemble(form, uids, subs)
+                        for enforce in (True, False):
+                            for op in ('sign', 'encrypt', 'certify'):
+                                n += 1
+                                case = {'suite': suite, 'form': form, 'uids': uids, 'subs': subs, 'op': op, 'user': None, 'enforce': enforce}
+                                run.one(suite, k, form, enforce, op, None, case, flags=flags, verify=(n % 4 == 0))
+    # revoked through the API, on a live key: key.revoke(uid) / an attestation after add_uid - the key keeps signing
+    for kind in ('rev', 'att'):
+        k = w.assemble('private', [[0, [[SIGN, 0]]]], [[[ENCC, 0]]])
+        u = k.userids[0]
+        with warnings.catch_warnings():
+            warnings.simplefilter('ignore')
+            if kind == 'rev':
+                u |= k.revoke(u, created=T(6), hash=w.H.SHA256)
+            else:
+                u |= k.certify(u, w.SignatureType.Attestation, attested_certifications=[], created=T(6), hash=w.H.SHA256)
+        for op in ('sign', 'certify', 'revoke'):
+            n += 1
+            case = {'suite': suite, 'kind': 'live-' + kind, 'op': op}
+            run.one(suite, k, 'private', True, op, None, case, flags=[CERTIFY | SIGN, ENCC], verify=True)
+    run.bt.flush()
+    return n
 
 
 def rebind_live(ctx, run, suite, count):
@@ -657,6 +739,19 @@ def precondition_forms(ctx, run, suite):
 
 
 F7_WITNESS = {'uids': [[0, [[AUTH, 0]]]], 'subs': [[[AUTH, 1], [SIGN, 5]]]}
+# repair 812bc0f (Props/C16.v C16_selfsig_old_refuted): certified for signing then revoked -> still signs; a revocation / attestation that
+# carries KeyFlags {Sign} over a certification without it -> refuses.  Repair df70557: key flags in the unhashed area only -> as without flags
+SELFSIG_WITNESSES = [
+    ('revoked-after-certification', {'uids': [[0, [[SIGN, 0], [NOFLAGS, 5, 'rev']]]], 'subs': []}, [CERTIFY | SIGN]),
+    ('attested-after-certification', {'uids': [[0, [[SIGN, 0], [NOFLAGS, 5, 'att']]]], 'subs': []}, [CERTIFY | SIGN]),
+    ('revocation-with-sign-flag', {'uids': [[0, [[0, 0], [SIGN, 5, 'rev']]]], 'subs': []}, [CERTIFY]),
+    ('attestation-with-sign-flag', {'uids': [[0, [[0, 0], [SIGN, 5, 'att']]]], 'subs': []}, [CERTIFY]),
+]
+UNHASHED_WITNESSES = [
+    ('unhashed-sign-flag-only', {'uids': [[0, [[SIGN, 0, 'uflags']]]], 'subs': []}, [CERTIFY]),
+    ('unhashed-sign-flag-subkey-signs', {'uids': [[0, [[SIGN, 0, 'uflags']]]], 'subs': [[[SIGN, 0]]]}, [CERTIFY, SIGN]),
+    ('unhashed-flags-over-hashed-certification', {'uids': [[0, [[SIGN, 0], [ENCC, 5, 'uflags']]]], 'subs': []}, [CERTIFY]),
+]
 
 
 def _run(ctx, pgpy, d):
@@ -670,6 +765,23 @@ def _run(ctx, pgpy, d):
     ctx.notes.append('F7 witness: implementation %s, model of the pre-480b116 code %s' % (out, old))
     if out == old:
         ctx.fail('regress-F7', 'implementation behaves like the oldest-binding model on the F7 witness', dict(F7_WITNESS, op='sign', impl=out))
+    for name, wit, flags in SELFSIG_WITNESSES:
+        k = w.assemble('private', wit['uids'], wit['subs'])
+        case = dict(wit, suite='regress-selfsig', op='sign', name=name)
+        out = run.one('regress-selfsig', k, 'private', True, 'sign', None, case, flags=flags)
+        old = d.call('performo', *describe(w, k, 'private', True, run.tok).split(' '), 'sign', '-')
+        ctx.notes.append('selfsig witness %s: implementation %s, model of the pre-812bc0f code %s' % (name, out, old))
+        if out == old:
+            ctx.fail('regress-selfsig', 'implementation behaves like the model of PGPUID.selfsig before repair 812bc0f (newest signature of any type)', dict(case, impl=out))
+    for name, wit, flags in UNHASHED_WITNESSES:
+        for op in ('sign', 'certify', 'encrypt'):
+            form = 'public' if op == 'encrypt' else 'private'
+            k = w.assemble(form, wit['uids'], wit['subs'])
+            case = dict(wit, suite='unhashed-flags', op=op, form=form, name=name)
+            out = run.one('unhashed-flags', k, form, True, op, None, case, flags=flags)
+            if out.startswith(('crash', 'exc')):
+                ctx.fail('unhashed-flags', 'key flags in the unhashed area of the self-certification crash the operation (PGPSignature.key_flags before repair df70557)',
+                         dict(case, impl=out))
     special_receivers(ctx, run, 'special')
     decrypt_routing(ctx, run, 'decrypt-route')
     if ctx.quick:
@@ -680,6 +792,9 @@ def _run(ctx, pgpy, d):
         ctx.exhaustive.append('%d operations: flag sets [0, Sign, EncryptStorage] on primary + 0..3 subkeys x {sign, encrypt} x enforcement x {private, public}' % n)
         n = sweep_identity(ctx, run, [0, SIGN, ENCC], 'identity')
         ctx.exhaustive.append('%d operations: identity choice (None / name / comment / e-mail / third uid / unknown) over two uids with flag sets from [0, Sign, EncC]' % n)
+        n = sweep_revoked(ctx, run, [0, SIGN, ENCC | ENCS], 'revoked')
+        ctx.exhaustive.append('%d operations: certification with flag set from [0, Sign, EncC|EncS], then a revocation / attestation by the key (no flags, Sign, '
+                              'EncC|EncS) or a newer certification with unhashed key flags x 0..1 subkeys x {sign, encrypt, certify} x enforcement x {private, public}' % n)
         sweep_history(ctx, run, [0, SIGN, ENCC, AUTH, NOFLAGS, SIGN | ENCS], 'history', 150)
         rebind_live(ctx, run, 'rebind', 12)
     else:
@@ -691,6 +806,9 @@ def _run(ctx, pgpy, d):
         ctx.exhaustive.append('%d operations: flag sets %s on primary + 0..3 subkeys x {sign, certify, encrypt, decrypt} x enforcement x 4 key forms' % (n, fam3))
         n = sweep_identity(ctx, run, [0, SIGN, ENCC, ENCS, AUTH, NOFLAGS], 'identity')
         ctx.exhaustive.append('%d operations: identity choice over two uids with flag sets from 6 values' % n)
+        n = sweep_revoked(ctx, run, [0, SIGN, ENCC, ENCS, AUTH, NOFLAGS, SIGN | ENCS], 'revoked')
+        ctx.exhaustive.append('%d operations: certification with one of 7 flag sets, then a revocation / attestation by the key (no flags, Sign, EncC|EncS) or a newer '
+                              'certification with unhashed key flags x 0..1 subkeys x {sign, encrypt, certify} x enforcement x {private, public}' % n)
         sweep_history(ctx, run, [0, SIGN, ENCC, ENCS, AUTH, NOFLAGS, SIGN | ENCS, CERTIFY], 'history', 3000)
         rebind_live(ctx, run, 'rebind', 150)
     run.bt.flush()
@@ -739,6 +857,7 @@ def replay(ctx, case):
             suite = case.get('suite')
             if suite == 'decrypt-route': decrypt_routing(ctx, run, suite)
             elif suite == 'rebind': rebind_live(ctx, run, suite, 20)
+            elif suite == 'revoked': sweep_revoked(ctx, run, [0, SIGN, ENCC | ENCS], suite)
             elif suite == 'forms': precondition_forms(ctx, run, suite)
             else: special_receivers(ctx, run, 'special')
             run.bt.flush()
